@@ -77,6 +77,11 @@ impl Sim {
     }
     fn drain(&mut self) {
         let evs = std::mem::take(&mut self.k.kbd_out.outputs.events);
+        // the recorder also keeps a formatted log that grows with every output (hundreds of MB
+        // over a long run of continuous scrolling); nothing here reads it
+        if !evs.is_empty() {
+            self.k.kbd_out.log = kanata_state_machine::oskbd::LogFmt::new();
+        }
         for s in evs {
             if let Some(mut e) = parse_out(self.now, &s) {
                 e.in_idx = self.last_in;
@@ -836,6 +841,47 @@ impl Prop for C15 {
                     Ok(s) => s,
                     Err(_) => return RunOut::skip("fresh-instance-rejected"),
                 };
+                // what a configuration determines is the same in both instances (these fields do not
+                // change while kanata runs)
+                {
+                    let (x, y) = (&a.k, &c.k);
+                    let mut diffs: Vec<String> = vec![];
+                    if x.switch_max_key_timing != y.switch_max_key_timing {
+                        diffs.push(format!("switch_max_key_timing {} vs {}", x.switch_max_key_timing, y.switch_max_key_timing));
+                    }
+                    if x.sequence_timeout != y.sequence_timeout {
+                        diffs.push(format!("sequence_timeout {} vs {}", x.sequence_timeout, y.sequence_timeout));
+                    }
+                    if x.sequence_input_mode != y.sequence_input_mode {
+                        diffs.push("sequence_input_mode".into());
+                    }
+                    if x.sequence_always_on != y.sequence_always_on {
+                        diffs.push("sequence_always_on".into());
+                    }
+                    if x.sequence_backtrack_modcancel != y.sequence_backtrack_modcancel {
+                        diffs.push("sequence_backtrack_modcancel".into());
+                    }
+                    let vk = |k: &Kanata| {
+                        let mut v: Vec<(String, usize)> = k.virtual_keys.iter().map(|(n, i)| (n.clone(), *i)).collect();
+                        v.sort();
+                        v
+                    };
+                    if vk(x) != vk(y) {
+                        diffs.push("virtual_keys".into());
+                    }
+                    let names = |k: &Kanata| k.layer_info.iter().map(|l| l.name.clone()).collect::<Vec<_>>();
+                    if names(x) != names(y) {
+                        diffs.push("layer names".into());
+                    }
+                    if !diffs.is_empty() {
+                        o.set_fail(
+                            "C15:reloaded-configuration-state-differs-from-fresh-start",
+                            format!("after reloading cfg{target} these configuration-determined fields differ from a freshly started instance of the same file (reloaded vs fresh): {}", diffs.join("; ")),
+                            vec![],
+                        );
+                        return o;
+                    }
+                }
                 let base_c = c.now;
                 if let Op::Gap(n) = &case.ops[op_i] {
                     c.gap((*n as u64).saturating_sub(done));
